@@ -97,9 +97,14 @@ def ops_executor(rng, n, rounds=10, drop=0.03):
     return ops
 
 
+EXT2 = ("join", "race", "merge", "chain", "zip")
+
+
 def pick_container(rng, cfg, comb, allow_zero=True):
     conts = ["array", "tuple"] + (["vec"] if cfg != "nostd" else [])
     cont = rng.choice(conts)
+    if comb in EXT2 and rng.random() < 0.08:
+        return "ext", 2     # a.join(b), a.race(b), a.merge(b), a.chain(b), a.zip(b): the two-argument trait methods
     lo = 0 if allow_zero else 1
     if comb == "race":
         lo = 1          # race over zero futures panics in Indexer (outside C06, DESIGN 7)
